@@ -1271,6 +1271,20 @@ def transport_checks(ctx):
         ci = rng.choice(ciphers)
         ma = None if "gcm" in ci else rng.choice(list(Transport._mac_info.keys()))
         plans.append((rng.choice(comps), ci, ma, rng.random() < 0.5))
+    # negotiation grid: every cipher x EVERY MAC name (the MAC is nominal under AEAD but still negotiated: an
+    # OpenSSH peer's default order yields GCM together with an *-etm@openssh.com name); all AEAD x MAC pairs in
+    # every run, the classic pairs rotating by seed in the quick tier, everything in thorough
+    macs = list(Transport._mac_info.keys())
+    aead_c = [c for c in ciphers if Transport._cipher_info[c].get("is_aead")]
+    classic_c = [c for c in ciphers if c not in aead_c]
+    grid = [(c, m) for c in aead_c for m in macs]
+    pairs = [(c, m) for c in classic_c for m in macs]
+    if ctx.thorough:
+        grid += pairs
+    else:
+        grid += [pairs[(ctx.seed * 11 + 5 * k) % len(pairs)] for k in range(10)]
+    for k, (ci, ma) in enumerate(grid):
+        plans.append(("none" if k % 4 else rng.choice(comps), ci, ma, k % 3 == 0))
     plans = [p + (None,) for p in plans]
     # peer / configuration variety across a key change (all in thorough, rotating by seed in quick)
     variants = [{"first_only": "s"}, {"first_only": "c"}, {"race": True}, {"rekey_by": "server"},
@@ -1424,7 +1438,8 @@ def run(ctx):
                 "positions (mid-header included) with need_rekey set or not, run loop continuing on "
                 "NeedRekeyException; write_all over scripted sockets (partial sends, timeouts, EAGAIN, errors, "
                 "zero returns); two concurrent senders with compression (one parked inside the compressor); whole "
-                "client/server Transport sessions for every compression mode incl. delayed zlib@openssh.com "
+                "client/server Transport sessions for every compression mode incl. delayed zlib@openssh.com, every "
+                "AEAD cipher x every MAC name (incl. *-etm names) and classic cipher x MAC pairs rotating by seed "
                 "(kex, auth switch-over, channel data, re-key) with recording packetizers; real suites: every cipher x "
                 "MAC x zlib on/off with random keys, fragmentation, key switch; a case is non-trivial when distinct")
     ctx.trusted += ["model coq/Model/C01.v is hand-written; tied to paramiko/packet.py by this differential run "
